@@ -23,11 +23,17 @@ RULE = ('generated dense KS/phy source directories (tens of spikes, 3-8 channels
         'or the source directory under 14 spellings (same path, Path object, /., trailing /, other/../src, <src>/sub/.. '
         'with and without the sub-directory, symlink, chain of symlinks, symlinked parent, <src>/self -> ., relative, '
         'relative ../src, relative .). Corpus first, then every pair of values of the main axes, '
-        'then seeded random. Non-trivial = conversion ran to completion (or was refused for the same directory); '
-        'distinct = distinct abstract input.')
+        'then seeded random. Stage 3: convert(force=True) on 12 % of the fresh-target cases; cluster ids 65534/65535 (65536-row '
+        'clusters.* tables; the two pure peak-channel properties of TemplateModel are memoised for these datasets only, the '
+        'unpatched export takes > 11 minutes and writes identical files); InBeyond = one step outside the statement, judged by '
+        'model equality only: cluster id 65536, sparse template storage; InCompress = compress_spikes_dtypes called on a bare '
+        'directory (ids around 65535/65536, negative ids, (n,1), labels templates/clusters, decoy names, a missing file). '
+        'Non-trivial = conversion ran to completion (or was refused for the same directory; InBeyond: any outcome; '
+        'InCompress: compressed or StopIteration); distinct = distinct abstract input.')
 EXHAUSTIVE = {'quick': False, 'thorough': False}
 CLAUSES = {
-    1: 'observed output / source directory differs from the Coq model PV.C13.Model.convert (file set, dtypes, shapes, determined values)',
+    1: 'observed output / source directory differs from the Coq model PV.C13.Model.convert (file set, dtypes, shapes, determined values); '
+       'InBeyond / InCompress: the only code besides 20 and 28',
     20: 'conversion of a well-formed dense dataset (or the read-back of its output) failed',
     21: 'C13_rows: first dimension of every spikes.* / clusters.* / templates.* / channels.* file (and number of uuids)',
     22: 'C13_units: spikes.samples are the source samples, spikes.times = samples / sample_rate (seconds)',
@@ -35,12 +41,16 @@ CLAUSES = {
     24: 'C13_uuids: one identifier per cluster, pairwise distinct',
     25: 'C13_roundtrip: the output directory loads back to the same times, samples, clusters, templates, channel map, positions',
     26: 'C13_guard: writing into the source directory must be refused, nothing written',
-    27: 'C13_frame: source files byte-identical except the deletion of temp_wh.dat; only the three subset files added',
+    27: 'C13_frame: source files byte-identical except the deletion of temp_wh.dat; only the three subset files added '
+        '(also judged, in its partial form, when a conversion to a fresh target raised)',
     28: 'C13_dtypes: spikes.clusters / spikes.templates stored as uint16 with unchanged ids (< 65536)',
 }
 TRUSTED = ['np.load/np.save, pathlib.glob/rename/resolve, shutil.copy, uuid.uuid4 (count and distinctness observed)',
            'the values of waveforms/amplitudes/depths/peak channels and the spike-subset files are oracles here (C14, C03, C17)',
-           'PV.C04.Model.load as the model of the read-back; Coq primitive floats reproduce samples/rate']
+           'PV.C04.Model.load as the model of the read-back; Coq primitive floats reproduce samples/rate',
+           'for the datasets with cluster ids >= 65534 only: TemplateModel.clusters_channels / templates_channels computed once per '
+           'model instead of at every access (harness/vt/props/c13.py:_memoised; files identical to the unpatched export, checked by hand); '
+           'run-length printer of 65536-row tables (datasets_c13.coq_arr / PV.C13.Fast.rle)']
 ASSUMES = ['source = dense KS/phy-named directory with amplitudes.npy, consistent shapes, no axis of length 1 other than the '
            '(n,1) vector layout, cluster/template ids < 65536, no clusters.channels.npy / clusters.peakToTrough.npy in the source',
            'probe tables with several probes have Merger-like channel maps (re-based raw indices non-negative); the channel-map '
@@ -453,7 +463,7 @@ def encode(case, obs):
         o = obs[1]
         cin = '(InCompress %s)' % _files(o['before'])
         if o['outcome'] == 'stop':
-            return cin, 'ObsStop'
+            return cin, '(ObsStop %s)' % _files(o['after'])
         if o['outcome'] == 'crash':
             return cin, 'ObsCrash'
         return cin, '(ObsCompressed %s)' % _files(o['after'])
